@@ -10,7 +10,7 @@ modes:  'in'  (C02)  arguments assumed in range: the call must return the right 
 The I/O log of the call is checked for C07 in both modes by harness/c07 (uses run_method with a hook).
 """
 from .common import *
-from symx.core import implied, b_not, SymBool
+from symx.core import implied, b_not, SymBool, Infeasible
 
 
 # ----------------------------------------------------------------------------- python indexing model
@@ -308,8 +308,74 @@ def methods_2d():
     return ms
 
 
-METHODS = {m.name: m for m in methods_3d()}
-METHODS_2D = {m.name: m for m in methods_2d()}
+def expect_header_value(E, T, got, j, tr, msg):
+    """Obligation: `got` is the little-endian int32 stored at element `tr` of the j-th footer array of file T."""
+    if not (isinstance(got, tuple) and len(got) == 2 and got[0] == 'badint'):
+        return E.check(False, msg + ': value is not a stored int32 (%s)' % (got[0] if isinstance(got, tuple) and got else type(got).__name__))
+    leaf = got[1]
+    if leaf[0] != 'file' or leaf[1] != T.fid:
+        return E.check(False, msg + ': bytes are not file bytes (%s)' % leaf[0])
+    off = spec.HEADER_BYTES + T.data_len + j * T.stride + 4 * tr
+    return E.check(leaf[2] == off, msg)
+
+
+def header_methods(dim):
+    """Header accessors (need a file with stored arrays: opts['stored'])."""
+    ms = []
+
+    def ntr(T):
+        return T.n_traces
+
+    def verify_header(E, T, a, res, label):
+        import segyio
+        if not isinstance(res, dict):
+            return E.check(False, label + ': result is not a dict')
+        for f in spec.TRACE_FIELDS:
+            v = res[segyio.tracefield.TraceField(f)]
+            if f in T.stored:
+                expect_header_value(E, T, v, sorted(T.stored).index(f), a[0], label + ': stored field is the int32 of that trace in its footer array')
+            else:
+                E.check(v == 0, label + ': constant field equals the table constant')
+
+    ms.append(M('gen_trace_header', ['index'], lambda r, a: r.gen_trace_header(a[0]),
+                lambda T, a: b_and(a[0] >= 0, a[0] < ntr(T)), None, dim=dim, kind='header'))
+    ms[-1].verify = verify_header
+    ms.append(M('gen_trace_header_all', ['index'], lambda r, a: r.gen_trace_header(a[0], load_all_headers=True),
+                lambda T, a: b_and(a[0] >= 0, a[0] < ntr(T)), None, dim=dim, kind='header'))
+    ms[-1].verify = verify_header
+    # negative ordinals through load_all_headers index a numpy array: Python semantics would denote trace n+index,
+    # the API documents an ordinal: only [0, n) is in range
+
+    def verify_field(E, T, a, res, label, fieldpos=0):
+        f = sorted(T.stored)[fieldpos]
+        if not isinstance(res, LazyArr):
+            return E.check(False, label + ': result is not an array')
+        shape = (T.dims[0], T.dims[1]) if dim == 3 else (T.dims[0],)
+        if len(res.shape) != len(shape):
+            return E.check(False, label + ': result has %d axes' % len(res.shape))
+        E.check(b_and(*[rs == es for rs, es in zip(res.shape, shape)]), label + ': result shape')
+        q = []
+        for k, sh in enumerate(shape):
+            qq = E.fresh('q%d' % k)
+            E.assume(b_and(qq >= 0, qq < sh, qq < res.shape[k]))
+            q.append(qq)
+        tr = q[0] * T.dims[1] + q[1] if dim == 3 else q[0]
+        expect_header_value(E, T, res.get(tuple(q)), fieldpos, tr, label + ': element is the int32 of that trace in the footer array')
+
+    for pos in (0, 1):
+        ms.append(M('get_tracefield_values_%d' % pos, [], (lambda r, a, pos=pos: r.get_tracefield_values(sorted(r._verif_stored)[pos])),
+                    lambda T, a: True, None, dim=dim, kind='header'))
+        ms[-1].verify = (lambda E, T, a, res, label, pos=pos: verify_field(E, T, a, res, label, pos))
+    return ms
+
+
+METHODS = {m.name: m for m in methods_3d() + header_methods(3)}
+METHODS_2D = {m.name: m for m in methods_2d() + [m for m in header_methods(2)]}
+for _m in list(METHODS_2D.values()):
+    if _m.kind == 'header' and not _m.name.endswith('_2d'):
+        METHODS_2D[_m.name + '_2d'] = _m
+        del METHODS_2D[_m.name]
+        _m.name = _m.name + '_2d'
 
 
 def squeeze_expected(shape, vox):
@@ -327,7 +393,7 @@ def squeeze_expected(shape, vox):
     return tuple(shape[k] for k in keep), v2
 
 
-def run_method(E, m, T, r, mode, after_call=None, args=None):
+def run_method(E, m, T, r, mode, after_call=None, args=None, excused=None):
     """Body of one path for method m on reader r of truth T. Returns nothing; obligations go to E."""
     mm = mods()
     Wrong = mm['utils'].WrongDimensionalityError
@@ -341,7 +407,21 @@ def run_method(E, m, T, r, mode, after_call=None, args=None):
     try:
         with Quiet():
             res = m.call(r, a)
-    except (IndexError, Wrong) as e:
+    except Exception as e:
+        if excused is not None and excused():
+            # an injected I/O fault / truncation fired: raising (anything) is the correct outcome
+            E.reached(label + ':raised-after-fault')
+            E.check(True, label + ': the call raised after the injected fault')
+            return
+        if not isinstance(e, (IndexError, Wrong)):
+            E.reached(label + ':raised-other')
+            if mode == 'in' or implied(inr):
+                E.check(False, label + ': in-range call raised %s(%s)' % (type(e).__name__, str(e)[:60]))
+            else:
+                E.check(False, label + ': out-of-range call raised %s instead of IndexError' % type(e).__name__)
+            if after_call:
+                after_call(a, None)
+            return
         E.reached(label + ':raised')
         if m.kind == 'refuse':
             E.check(isinstance(e, Wrong), label + ': 2D file refuses volume-style read with the dimensionality error')
@@ -350,18 +430,23 @@ def run_method(E, m, T, r, mode, after_call=None, args=None):
         if after_call:
             after_call(a, None)
         return
-    except Exception as e:
-        E.reached(label + ':raised-other')
-        if mode == 'in' or implied(inr):
-            E.check(False, label + ': in-range call raised %s(%s)' % (type(e).__name__, str(e)[:60]))
-        else:
-            E.check(False, label + ': out-of-range call raised %s instead of IndexError' % type(e).__name__)
-        if after_call:
-            after_call(a, None)
-        return
+    if excused is not None and not excused() and excused.must_fire:
+        raise Infeasible()      # the fault index lies beyond the reads of this call: not a fault scenario
     E.reached(label + ':returned')
     if m.kind == 'refuse':
         E.check(False, label + ': volume-style read on a 2D file returned')
+        return
+    if m.kind == 'header':
+        if m.argn:
+            k = py_wrap(a[0], T.n_traces)      # a negative ordinal, where accepted, denotes trace n + index
+            if k is None:
+                E.check(False, label + ': returned although the arguments denote no real item')
+                return
+            a = [k] + list(a[1:])
+        E.reached(label + ':probe')
+        m.verify(E, T, a, res, label)
+        if after_call:
+            after_call(a, res)
         return
     d = m.denote(T, a)
     if d is None:
@@ -409,10 +494,10 @@ def item_fn(method, bs, rate, nb, mode, opts=None):
         shenv.reset_ctx()
         lazyarr.ALWAYS_LAZY[0] = True
         if is2d:
-            T = sym_sgz_2d(E, bs, rate, nb, version=opts.get('version', 'sym'))
+            T = sym_sgz_2d(E, bs, rate, nb, version=opts.get('version', 'sym'), stored=opts.get('stored', ()))
         else:
             T = sym_sgz_3d(E, bs, rate, nb, version=opts.get('version', 'sym'), axes=opts.get('axes', 'sym'),
-                           il_step=opts.get('il_step', 1), xl_step=opts.get('xl_step', 1))
+                           il_step=opts.get('il_step', 1), xl_step=opts.get('xl_step', 1), stored=opts.get('stored', ()))
             # a valid file's line axes fit in int32 (the spec stores int32 start/step)
             for a0, st, n in ((T.il0, T.il_step, T.dims[0]), (T.xl0, T.xl_step, T.dims[1])):
                 if is_sym(a0):
@@ -430,9 +515,33 @@ def item_fn(method, bs, rate, nb, mode, opts=None):
             if 'nxl' in m.needs:
                 T.dims = (T.dims[0], int(T.dims[1]), T.dims[2])
         st = make_store(T)
-        f = shenv.ShimBlob(st) if opts.get('backend') == 'blob' else shenv.ShimFile(st)
-        with Quiet():
-            r = R.SgzReader(f, chunk_cache_size=opts.get('chunk_cache_size'), preload=bool(opts.get('preload')))
+        if opts.get('truncate'):
+            # the file is cut at an arbitrary byte length (C18): reads beyond the cut come back short / empty
+            cut = E.fresh('cut', 0)
+            E.assume(cut < st.content.length)
+            st.content = LazyBytes(cut, [(0, cut, st.content.snapshot(), 0)], True)
+            T.cut = cut
+        fault = None
+        excused = None
+        if opts.get('fault'):
+            fault = shenv.FaultPlan(E, opts['fault'], after_open=not opts.get('fault_in_open'), second=opts.get('fault2'))
+        shenv.SyncExecutor.order = opts.get('executor_order', 'submit')
+        f = shenv.ShimBlob(st, fault=fault) if opts.get('backend') == 'blob' else shenv.ShimFile(st, fault=fault)
+        try:
+            with Quiet():
+                r = R.SgzReader(f, chunk_cache_size=opts.get('chunk_cache_size'), preload=bool(opts.get('preload')))
+        except Exception as e:
+            if (fault is not None and fault.fired) or opts.get('truncate'):
+                E.reached('open:raised-after-fault')
+                E.check(True, 'open raised on the faulty / truncated file')
+                return
+            raise
+        r._verif_stored = tuple(opts.get('stored', ()))
+        if fault is not None:
+            fault.opened()
+            excused = fault.excuse
+        if opts.get('truncate'):
+            excused = shenv.Excuse(lambda: any(not implied(got == n) for (_, n, got) in st.reads), must_fire=False)
         if opts.get('warm'):
             # an arbitrary earlier in-range call of the same method (cache warm-up); only the second call is observed
             a0 = [E.fresh('w_' + n) for n in m.argn]
@@ -444,5 +553,6 @@ def item_fn(method, bs, rate, nb, mode, opts=None):
                 pass
         n_init_reads = len(st.reads)
         hook = opts.get('after_call')
-        run_method(E, m, T, r, mode, after_call=(lambda a, res: hook(E, m, T, r, st, n_init_reads, a, res)) if hook else None)
+        run_method(E, m, T, r, mode, after_call=(lambda a, res: hook(E, m, T, r, st, n_init_reads, a, res)) if hook else None,
+                   excused=excused)
     return fn
